@@ -1,11 +1,11 @@
 SPECIFICATION Spec
 CONSTANTS
-  MaxB = 7
-  K = 4
-  Budget = 2
+  MaxB = 5
+  K = 3
+  Budget = 1
   KeepSsz = TRUE
-  MaxOps = 0
-  Slack = 0
+  MaxOps = 8
+  Slack = 1
   UseResult = TRUE
 INVARIANTS TypeOK NoOrphan Reclaimed FreeIsEmpty NoStale
 CHECK_DEADLOCK FALSE
